@@ -328,10 +328,10 @@ func runC16(b *mon.B) {
 		}
 		lo := newDocLoader(format)
 		type pub struct {
-			val   config.ServerConfig
-			snap  string
-			step  int
-			deep  config.ServerConfig
+			val  config.ServerConfig
+			snap string
+			step int
+			deep config.ServerConfig
 		}
 		var published []pub
 		outcome := "ok"
@@ -433,7 +433,7 @@ func c16EndToEnd(b *mon.B, r *gen.R, caseNo int, format string, docs []c16Doc, e
 		return
 	}
 	defer rel.Close()
-	rel.Net.KeepLog = false
+	rel.Net.SetKeepLog(false)
 	lastGood = docs[0].Cfg
 	for _, d := range docs[1:] {
 		if err := rel.PublishDoc(d.Raw[format]); err == nil && d.Cfg != nil {
@@ -446,7 +446,7 @@ func c16EndToEnd(b *mon.B, r *gen.R, caseNo int, format string, docs []c16Doc, e
 		return
 	}
 	defer fresh.Close()
-	fresh.Net.KeepLog = false
+	fresh.Net.SetKeepLog(false)
 	b.Count("end_to_end_histories", 1)
 	// probes: lookups
 	var probes []string
